@@ -560,7 +560,13 @@ func h265RtCaseF(c *Case, mtu int, flags []h265Flags, frames [][]h265Framed) {
 		scribbleSpare(r.out...)
 		all = append(all, r)
 	}
+	// Every payload also goes to a second receiver: ONE H265Packet with SetZeroAllocation(true) for the
+	// whole history, its accessors read right after each payload was decoded; the unchanged predicate
+	// is evaluated on what it reports once more.
+	z := &codecs.H265Packet{}
+	z.SetZeroAllocation(true)
 	held := make([][]h265Held, len(frames))
+	zviews := make([][]string, len(frames))
 	for k := range frames {
 		if all[k].panicked {
 			continue
@@ -568,8 +574,12 @@ func h265RtCaseF(c *Case, mtu int, flags []h265Flags, frames [][]h265Framed) {
 		if rx != nil {
 			rx.WithDONL(flags[k].AddDONL)
 		}
+		z.WithDONL(flags[k].AddDONL)
 		for _, pl := range all[k].out {
 			held[k] = append(held[k], h265Parse(rx, flags[k].AddDONL, pl))
+			var zt Toks
+			h265Parse(z, flags[k].AddDONL, cloneBytes(pl)).view(&zt)
+			zviews[k] = append(zviews[k], zt.String())
 		}
 	}
 	for k, f := range frames {
@@ -583,6 +593,7 @@ func h265RtCaseF(c *Case, mtu int, flags []h265Flags, frames [][]h265Framed) {
 			c.O.Bytes(pl)
 			held[k][i].view(&c.O)
 			c.O.Bool(h265Head(pl))
+			c.O.Tok(zviews[k][i])
 			if len(pl) >= 2 {
 				switch (pl[0] >> 1) & 63 {
 				case 48:
